@@ -40,7 +40,18 @@ func (h H) singleApplier(rule string) {
 			if m, ok := h.isFSMInvoke(in); ok {
 				n++
 				name := h.name(core.Root(fn))
-				h.C.Check(rule+" who-invokes-FSM", "FSM."+m+" in "+name, allowed[name], h.pos(in), "the user's state machine is invoked outside the FSM goroutine's methods")
+				// …and not from a function literal that one of them starts as a
+				// goroutine of its own (the state machine would be read while the
+				// loop goes on applying: the snapshot no longer matches its label)
+				spawned := false
+				for f := fn; f != nil && f.Parent() != nil; f = f.Parent() {
+					for _, g := range h.P.GoSites(f.Parent()) {
+						if core.ClosureOf(g.Call.Value) == f {
+							spawned = true
+						}
+					}
+				}
+				h.C.Check(rule+" who-invokes-FSM", "FSM."+m+" in "+name, allowed[name] && !spawned, h.pos(in), fmt.Sprintf("the user's state machine is invoked outside the FSM goroutine's methods (in a goroutine started there: %v)", spawned))
 			}
 		})
 	}
